@@ -18,6 +18,9 @@ import (
 // nothing for a while, then E[k:] with end-of-message.
 
 type c07Plan struct {
+	// ReadTimeout0: Info.PacketReadTimeout is 0, so the second of silence between the two parts of the package is
+	// longer than the read timeout (which concerns a transport that has ended, not a server that takes its time).
+	ReadTimeout0 bool `json:"read_timeout_0,omitempty"`
 	Entry string `json:"entry"`
 	K     int    `json:"k"`
 	// ReadSplit additionally splits the transport reads (0 = no).
@@ -34,6 +37,9 @@ type c07Plan struct {
 	Full bool `json:"full,omitempty"`
 	// EmptyAtCut: an empty packet (no data, no end of message) arrives between the prefix and the rest.
 	EmptyAtCut bool `json:"empty_at_cut,omitempty"`
+	// Many: every packet carries one byte of data: the prefix of the package is itself spread over K packets (each
+	// of them leaves the package incomplete) and the rest over as many as it takes - thousands for row/text/big.
+	Many bool `json:"many,omitempty"`
 }
 
 type c07 struct{}
@@ -103,11 +109,14 @@ func splitSlash(s string) []string {
 	return append(out, cur)
 }
 
+// c07ManyCases: one package in thousands of one-byte packets, cut (the pause) at these prefix lengths
+var c07ManyCases = []int{1300, 2590, 40}
+
 func (c07) NRuns(tier string) int {
 	if tier == "thorough" {
-		return len(c07Build(tier)) * 8 // every (entry, k) under read sizes "all", 1..7
+		return len(c07Build(tier))*8 + len(c07ManyCases) // every (entry, k) under read sizes "all", 1..7
 	}
-	return len(c07Build(tier))
+	return len(c07Build(tier)) + len(c07ManyCases)
 }
 func (c07) Rule() string {
 	return "enumeration: for every zoo package E (quick: every non-data package up to 300 bytes plus one data package per data-type family; thorough: the whole zoo, each case under read sizes all/1..7) and EVERY proper prefix length k in 1..|E|-1, the context format plus E[:k] arrives as a packet without end-of-message, the channel is polled after quiescence, then E[k:] arrives with end-of-message and the channel is polled again (a fifth of the cases: in two further parts; a third: another package in front of the context; a quarter: a final DONE behind E); compared with the context alone and with the unfragmented response; non-trivial = 0<k<|E|; distinct = distinct (entry, k); exhaustive over k per entry set"
@@ -118,6 +127,9 @@ func (c07) Components() map[string]string {
 
 func (c07) Gen(r *Rand, idx int, tier string) interface{} {
 	cs := c07Build(tier)
+	if n := (c07{}).NRuns(tier) - len(c07ManyCases); idx >= n {
+		return &c07Plan{Entry: "row/text/big", K: c07ManyCases[(idx-n)%len(c07ManyCases)], Many: true, Post: idx%2 == 0}
+	}
 	c := cs[idx%len(cs)]
 	p := &c07Plan{Entry: c.entry, K: c.k}
 	if tier == "thorough" {
@@ -133,6 +145,7 @@ func (c07) Gen(r *Rand, idx int, tier string) interface{} {
 	p.Post = idx%4 == 1
 	p.Full = idx%7 == 3
 	p.EmptyAtCut = idx%9 == 4
+	p.ReadTimeout0 = idx%11 == 6
 	return p
 }
 func (c07) Decode(raw json.RawMessage) (interface{}, error) {
@@ -193,11 +206,21 @@ func (c07) Run(plan interface{}, schedSeed uint64, replay []simrt.Choice, lenien
 		full = append(full, peer.Done(0, 0, 0)...)
 	}
 	cfg0 := simrt.Config{Seed: schedSeed, Strategy: "uniform", ColdQueueLocks: true}
-	polls := []time.Duration{500 * time.Millisecond, 1500 * time.Millisecond}
-	if p.K2 > p.K && p.K2 < len(e.Bytes) {
-		polls = append(polls, 2500*time.Millisecond)
+	// the silence between the parts of the package: one second - or, with a read timeout of one second (or none),
+	// two and a half: longer than the read timeout, which concerns a transport that has ended, not a server that
+	// takes its time
+	gap := time.Second
+	cl := respClient{QueueSize: 100, ReadTimeoutS: 50, DrainFor: 20 * time.Second, Hooks: true}
+	if p.ReadTimeout0 {
+		gap = 2500 * time.Millisecond
+		cl.ReadTimeoutS = p.K % 2 // 0 or 1
+		v.Probe("silence-longer-than-the-read-timeout")
 	}
-	cl := respClient{QueueSize: 100, ReadTimeoutS: 50, PollAt: polls, DrainFor: 20 * time.Second, Hooks: true}
+	polls := []time.Duration{gap / 2, gap * 3 / 2}
+	if p.K2 > p.K && p.K2 < len(e.Bytes) {
+		polls = append(polls, gap*5/2)
+	}
+	cl.PollAt = polls
 
 	// baseline: everything in one packet with end-of-message
 	base := runResp(cfg0, respDelivery{Packets: peer.Packetise(full, nil, peer.BufResponse, 0, true), TermAt: -1}, cl)
@@ -223,6 +246,11 @@ func (c07) Run(plan interface{}, schedSeed uint64, replay []simrt.Choice, lenien
 		pauses = append(pauses, 2*peer.HeaderSize+cut2)
 	}
 	pkts := peer.Packetise(full, cuts, peer.BufResponse, 0, true)
+	if p.Many {
+		pkts = peer.Packetise(full, peer.CutsBySize(len(full), 1), peer.BufResponse, 0, true)
+		pauses = []int{cut * (peer.HeaderSize + 1)}
+		v.Probe("one-package-in-thousands-of-packets")
+	}
 	if p.EmptyAtCut && len(pkts) >= 2 {
 		pkts = append([][]byte{pkts[0], peer.MakePacket(peer.BufResponse, 0, 0, 0, nil)}, pkts[1:]...)
 		if len(pauses) > 1 {
@@ -231,7 +259,7 @@ func (c07) Run(plan interface{}, schedSeed uint64, replay []simrt.Choice, lenien
 		v.Probe("empty-packet-at-the-cut")
 	}
 	got := runResp(cfg, respDelivery{Packets: pkts, TermAt: -1,
-		PauseAfterByte: pauses}, cl2)
+		PauseAfterByte: pauses, PauseFor: gap}, cl2)
 	out := got.Out
 	StdOutcome(v, base.Out)
 	StdOutcome(v, out)
